@@ -115,6 +115,9 @@ func (s *streamWS) RecvMsg(m interface{}) error {
 		if err := protojson.Unmarshal(b, msg); err != nil {
 			return err
 		}
+	} else if s.recvN > 1 {
+		// No body is bound: the only message is the one built from the URL.
+		return io.EOF
 	}
 
 	if s.recvN == 1 {
